@@ -26,6 +26,7 @@ META = {
 META["explanation"] += ' R05.9 the Vec the batched stream accumulates for one item is only ever grown (no clear / truncate / pop / drain of received diffs).'
 META["explanation"] += ' R05.11 every public mutator publishes before it returns (publication call post-dominates the structural change). R05.12 who-may-create-a-receiver: Sender::subscribe only in ObservableVector::subscribe (next to the snapshot), Receiver::resubscribe nowhere. R05.1 also accepts a diff built on two branches when both alternatives pair with the method.'
 META["explanation"] += ' R05.9 also requires the collected batch to grow at its back only (no swap / replace / insert / reverse of it).'
+META["explanation"] += ' R05.5 (c) while the plain stream holds the rest of a multi-diff message, that state is left only where its iterator is known to be exhausted. Shared in the im_core group: R06.3 (a Reset is built only under a Lagged edge - anywhere in the crate, not only in the subscriber module).'
 
 VEC_T = "vector::ObservableVector<T>"
 TXN_T = "vector::transaction::ObservableVectorTransaction<'o, T>"
